@@ -192,3 +192,48 @@ Proof.
     f_equal. apply IH. lia. }
   apply (H (length l)). lia.
 Qed.
+
+(* the generated description of the flat arrays is the pairing model: chunks of 2, positions 0 and 1 *)
+Lemma chunks_pairs_chunk2 {A} : forall fuel (l : list A), (length l <= fuel)%nat ->
+  flat_map (fun c => match nth_error c 0, nth_error c 1 with Some a, Some b => [(a, b)] | _, _ => [] end) (chunks fuel 2 l) = chunk2 l.
+Proof.
+  induction fuel as [|f IH]; intros l Hl.
+  - destruct l; [reflexivity | cbn in Hl; lia].
+  - destruct l as [|a [|b t]]; try reflexivity.
+    cbn [chunks length Nat.eqb orb Nat.ltb Nat.leb firstn skipn flat_map nth_error chunk2 app].
+    f_equal. apply IH. cbn in Hl. lia.
+Qed.
+
+Theorem array_pairs_chunk2 {A} (l : list A) : array_pairs (2, (0, 1))%nat l = chunk2 l.
+Proof. unfold array_pairs. cbn [fst snd]. apply chunks_pairs_chunk2. lia. Qed.
+
+Theorem chunk2_odd {A} (grid : list (A * A)) (x : A) : chunk2 (flatten2 grid ++ [x]) = grid.
+Proof.
+  induction grid as [|[a b] t IH]; [reflexivity|].
+  unfold flatten2 in *. cbn [flat_map fst snd app chunk2]. rewrite IH. reflexivity.
+Qed.
+
+Theorem arrays_generated :
+  farr_chunk = (2, (0, 1))%nat /\ warr_chunk = (2, (0, 1))%nat /\
+  (forall a b : R, farr_point a b = fs_point a b) /\ (forall a b : R, warr_point Rops TWO_PI a b = ws_point Rops TWO_PI a b).
+Proof. repeat split. Qed.
+
+(* every `impl From<space> for space` is the named conversion *)
+Theorem from_impls_delegate x0 x1 nx y0 y1 ny :
+  from_ws_for_fs Rops TWO_PI x0 x1 nx y0 y1 ny = fs_from_wavelength_space Rops TWO_PI x0 x1 nx y0 y1 ny /\
+  from_sd_for_fs Rops x0 x1 nx y0 y1 ny = sd_as_frequency_space Rops x0 x1 nx y0 y1 ny /\
+  from_ws_for_sd Rops TWO_PI x0 x1 nx y0 y1 ny = sd_from_wavelength_space Rops TWO_PI x0 x1 nx y0 y1 ny /\
+  from_fs_for_sd Rops x0 x1 nx y0 y1 ny = sd_from_frequency_space Rops x0 x1 nx y0 y1 ny /\
+  from_fs_for_ws Rops TWO_PI x0 x1 nx y0 y1 ny = fs_as_wavelength_space Rops TWO_PI x0 x1 nx y0 y1 ny /\
+  from_sd_for_ws Rops TWO_PI x0 x1 nx y0 y1 ny = sd_as_wavelength_space Rops TWO_PI x0 x1 nx y0 y1 ny.
+Proof. repeat split. Qed.
+
+(* descending axes: the conversion swaps the endpoints, it does not sort — a descending positive axis stays descending (the
+   orientation is kept, which is what makes the round trip the identity; sorting and round-tripping are incompatible) *)
+Definition descending (a : axis R) : Prop := 0 < ax_hi a /\ ax_hi a < ax_lo a.
+Theorem to_fs_descending s : descending (fst s) -> descending (snd s) -> descending (fst (to_fs s)) /\ descending (snd (to_fs s)).
+Proof.
+  destruct s as [[[x0 x1] nx] [[y0 y1] ny]]. unfold descending; cbn [fst snd ax_lo ax_hi]. intros [Hx0 Hx] [Hy0 Hy].
+  change (to_fs (x0, x1, nx, (y0, y1, ny))) with (mk_space (w_of x1) (w_of x0) nx (w_of y1) (w_of y0) ny).
+  unfold mk_space; cbn [fst snd]. repeat split; try (apply w_of_pos; lra); apply w_of_decreasing; lra.
+Qed.
